@@ -248,7 +248,19 @@ func comparePointers(a *SexpPointer, bs Sexp) (int, error) {
 	return 1, nil
 }
 
+// maxCompareDepth bounds the nesting Compare descends into: two values
+// that contain themselves ((aset a 0 a)) would otherwise be compared element
+// by element until the Go stack is exhausted.
+const maxCompareDepth = 10000
+
 func (env *Zlisp) Compare(a Sexp, b Sexp) (int, error) {
+	if env != nil { // hash lookups compare keys without an interpreter
+		env.compareDepth++
+		defer func() { env.compareDepth-- }()
+		if env.compareDepth > maxCompareDepth {
+			return 0, fmt.Errorf("comparison nested deeper than %d levels: %v?", maxCompareDepth, errSelfContaining)
+		}
+	}
 
 	var err error
 	if sel, isSel := a.(Selector); isSel {
